@@ -144,6 +144,7 @@ inductive Ev where
   | resume                        -- resume_suspended_connections moved the connection back
   | shutdownClose                 -- close_connection (daemon shutdown)
   | cleanup                       -- MHD_cleanup_connections frees the connection
+  | appQueue (r : Resp) (env : IdleEnv)  -- MHD_queue_response called by the application outside the access handler
   deriving Repr, Inhabited
 
 /-! ## state -/
@@ -348,6 +349,23 @@ def dropJunk : List Tok → List Tok
   | .junk :: t => dropJunk t
   | l => l
 
+/-- `to_be_processed`: how many of the `k` buffered payload bytes are offered to the handler -/
+def bodyOffer {σ} (c : Conn σ) (k : Nat) : Nat :=
+  if c.haveChunked then min c.chunkLeft k else min c.remaining k
+
+/-- accounting after an upload call that took `taken` bytes -/
+def afterUpload {σ} (c1 : Conn σ) (taken : Nat) : Conn σ :=
+  if c1.haveChunked then { c1 with chunkLeft := c1.chunkLeft - taken }
+  else { c1 with remaining := c1.remaining - taken }
+
+/-- the buffer after `taken` of the `k` payload bytes at its head were consumed -/
+def restAfter (k taken : Nat) (t : List Tok) : List Tok :=
+  if taken = k then t else .data (k - taken) :: t
+
+/-- `instant_retry`: chunked, the rest of the chunk was in the buffer and was taken, more bytes follow -/
+def retryNow {σ} (c : Conn σ) (k offered taken : Nat) (rest : List Tok) : Bool :=
+  c.haveChunked && decide (c.chunkLeft ≤ k) && decide (taken = offered) && !rest.isEmpty
+
 /-- process_request_body.  `fuel` bounds the number of passes of its `do … while (instant_retry)`
     loop (every pass consumes a token of the buffer or is the last one; `bodyFuel` suffices,
     running out is reported as a fault). -/
@@ -365,25 +383,19 @@ def processBody {σ} (cfg : Cfg) (app : App σ) (env : IdleEnv) : Nat → List T
         -- payload where a chunk-size line is expected: malformed
         transmitError cfg env { c with buf := .data k :: t }
       else
-        let offered := if c.haveChunked then min c.chunkLeft k else min c.remaining k
-        if offered = 0 then
+        if bodyOffer c k = 0 then
           -- chunk complete, payload where CRLF is expected (non-chunked: body complete, caller leaves)
           if c.haveChunked then transmitError cfg env { c with buf := .data k :: t }
           else ({ c with buf := .data k :: t }, [])
         else
-          let (c1, l, ret, taken) := callApp cfg app env c .upload offered
-          if !ret then
-            let (c2, l2) := closeError c1
-            (c2, l ++ l2)
-          else
-            let c2 := if c1.haveChunked then { c1 with chunkLeft := c1.chunkLeft - taken }
-                      else { c1 with remaining := c1.remaining - taken }
-            let rest := if taken = k then t else .data (k - taken) :: t
-            -- instant_retry: chunked, the rest of the chunk was in the buffer and was taken, more bytes follow
-            if c.haveChunked ∧ c.chunkLeft ≤ k ∧ taken = offered ∧ !rest.isEmpty then
-              let (c3, l3) := processBody cfg app env n rest c2
-              (c3, l ++ l3)
-            else ({ c2 with buf := rest }, l)
+          match callApp cfg app env c .upload (bodyOffer c k) with
+          | (c1, l, ret, taken) =>
+            if !ret then
+              ((closeError c1).1, l ++ (closeError c1).2)
+            else if retryNow c k (bodyOffer c k) taken (restAfter k taken t) then
+              ((processBody cfg app env n (restAfter k taken t) (afterUpload c1 taken)).1,
+               l ++ (processBody cfg app env n (restAfter k taken t) (afterUpload c1 taken)).2)
+            else ({ afterUpload c1 taken with buf := restAfter k taken t }, l)
   | n + 1, .chunkEnd :: t, c =>
       if c.haveChunked ∧ c.inChunk ∧ c.chunkLeft = 0 then
         if t.isEmpty then ({ c with inChunk := false, buf := [] }, [])
@@ -422,7 +434,9 @@ def idleCase {σ} (cfg : Cfg) (app : App σ) (env : IdleEnv) (c : Conn σ) : Con
       | .line .badTarget :: t =>
           if cfg.uriLog then
             let (s', ctx) := app.uriLog c.app
-            let (c1, l) := transmitError cfg env { c with app := s', buf := t, clientAware := true, ctx := ctx, state := .reqLineReceiving }
+            -- (the C code is still in REQ_LINE_RECEIVING here; transmit_error_response_len overwrites the state
+            --  at once and only compares it with START_REPLY before)
+            let (c1, l) := transmitError cfg env { c with app := s', buf := t, clientAware := true, ctx := ctx, state := .reqLineReceived }
             (c1, [.uriLog ctx] ++ l, .again)
           else
             let (c1, l) := transmitError cfg env { c with buf := t, state := .reqLineReceiving }
@@ -617,7 +631,11 @@ def handleIdle {σ} (cfg : Cfg) (app : App σ) (env : IdleEnv) (c : Conn σ) : O
       (c2, l1 ++ l2)
     else
       let (c2, l2) := updateEventLoopInfo cfg env c1
-      if ¬ c2.suspended ∧ cfg.epoll then
+      if c2.state = .closed then
+        -- closed while the wait state was computed (no space left): moved to the cleanup list at once
+        let (c3, l3) := cleanupConnection c2
+        (c3, l1 ++ l2 ++ l3)
+      else if ¬ c2.suspended ∧ cfg.epoll then
         let (c3, l3) := epollUpdate cfg env c2
         (c3, l1 ++ l2 ++ l3)
       else (c2, l1 ++ l2)
@@ -706,6 +724,15 @@ def step {σ} (cfg : Cfg) (app : App σ) (c : Conn σ) (e : Ev) : Out σ :=
         else
           let (c1, l1) := closeConn c terminatedDaemonShutdown
           ({ c1 with inCleanup := true }, l1)
+    | .appQueue r env =>
+        -- the application can only address a request it has been shown; external polling: the call is
+        -- permitted outside the handler; MHD_connection_handle_idle is entered directly (`! in_idle`)
+        if c.inCleanup ∨ ¬ c.clientAware then (c, [])
+        else
+          let q := queueResponse env c r
+          if q.2.2 ∧ ¬ q.1.suspended then
+            ((handleIdle cfg app env q.1).1, q.2.1 ++ (handleIdle cfg app env q.1).2)
+          else (q.1, q.2.1)
     | .cleanup =>
         if c.inCleanup then
           let (c1, l1) := dropResp c
